@@ -378,8 +378,10 @@ def migrate (S : Schema) (m : Nat) (v : Val) : Val :=
     | _ => v
   | _ => v
 
-/-- which roots run `otlp.Migrate*` after a *protobuf* decode (`p*otlp/request.go`) -/
+/-- which roots run `otlp.Migrate*` after a *protobuf* decode: all of them — `p*/pb.go` `ProtoUnmarshaler` and
+`p*otlp/request.go` (responses carry no resources) -/
 def migratesPb (root : String) : Bool :=
+  root == "logs" || root == "metrics" || root == "traces" || root == "profiles" ||
   root == "logsreq" || root == "metricsreq" || root == "tracesreq" || root == "profilesreq"
 /-- which roots run it after a JSON decode (`p*/json.go`, and the requests through them) -/
 def migratesJson (root : String) : Bool :=
